@@ -28,7 +28,7 @@ def plan(tier):
             "required_classes": ["criteria:fixed", "criteria:threshold", "criteria:both", "per-bond-limits",
                                  "temp_m_trunc:scalar", "temp_m_trunc:list", "degenerate-spectrum", "rank-below-limit",
                                  "threshold>=0.5", "threshold:next-to-a-singular-value", "both:limit-binds", "both:threshold-binds",
-                                 "both:count-depends-on-the-normalisation", "sweep:to_right", "sweep:to_left", "ret_s", "sector:zero-with-signed-labels"],
+                                 "both:count-depends-on-the-normalisation", "config-object", "sweep:to_right", "sweep:to_left", "ret_s", "sector:zero-with-signed-labels"],
             "required_counters": {"oracle": 300, "bounds_checked": 200, "kept_counts_checked": 100}}
     if tier == "quick":
         base.update({"ncases": 640, "min_nontrivial": 60})
@@ -75,7 +75,68 @@ def degenerate_state(ctx, gm, model):
     return mps, {"blocks": blocks}
 
 
+def config_case(ctx):
+    """The configuration object by itself: kept counts of the three criteria on synthetic spectra against the documented
+    rules, and the two documented ways to combine / loosen limits (update: the stricter of the two; relax: threshold x 3
+    capped at 0.9, limits x 0.8 but at least 2)."""
+    from renormalizer.utils import CompressConfig, CompressCriteria
+    rng = ctx.rng
+    ctx.cls("config-object")
+    n = int(rng.integers(2, 9))
+    for _ in range(12):
+        k = int(rng.integers(1, 30))
+        sigma = np.sort(np.abs(rng.normal(size=k)) * 10.0 ** rng.uniform(-3, 3, size=k))[::-1]
+        if rng.random() < 0.3:
+            sigma[k // 2:] = sigma[k // 2]           # a degenerate tail
+        t = float(rng.choice([0.5, 0.9, 1e-3])) if rng.random() < 0.3 else float(10 ** rng.uniform(-6, -0.05))
+        dims = rng.integers(1, 40, size=n + 1)
+        idx, left = int(rng.integers(0, n)), bool(rng.random() < 0.5)
+        ns = sigma / np.linalg.norm(sigma)
+        if np.any(np.abs(ns - t) <= 1e-12):
+            continue
+        want_t = max(int(np.sum(ns > t)), 1)
+        want_f = min(int(dims[idx + 1 if left else idx]), k)
+        for crit, want in ((CompressCriteria.threshold, want_t), (CompressCriteria.fixed, want_f),
+                           (CompressCriteria.both, min(want_t, want_f))):
+            cfg = CompressConfig(crit, threshold=t, max_bonddim=int(dims.max()))
+            cfg.max_dims = np.array(dims, dtype=int)
+            got = ctx.lib(cfg.compute_m_trunc, sigma.copy(), idx, left, what="CompressConfig.compute_m_trunc")
+            ctx.count("oracle")
+            ctx.count("config_counts_checked")
+            ctx.check(int(got) == want, "compute_m_trunc|differs-from-documented-criterion|" + crit.name, got=int(got), want=want,
+                      threshold=t, limit=int(dims[idx + 1 if left else idx]), normalised=ns[:8].tolist())
+    # update / relax
+    t1, t2 = float(10 ** rng.uniform(-6, -1)), float(10 ** rng.uniform(-6, -1))
+    d1, d2 = rng.integers(1, 40, size=n + 1), rng.integers(1, 40, size=n + 1)
+    a = CompressConfig(CompressCriteria.both, threshold=t1, max_bonddim=int(d1.max()))
+    b = CompressConfig(CompressCriteria.both, threshold=t2, max_bonddim=int(d2.max()))
+    a.max_dims, b.max_dims = np.array(d1, dtype=int), np.array(d2, dtype=int)
+    ctx.lib(a.update, b, what="CompressConfig.update")
+    ctx.count("oracle", 2)
+    ctx.check(a.threshold == min(t1, t2) and np.array_equal(a.max_dims, np.maximum(d1, d2)), "CompressConfig.update|not-the-stricter-of-the-two",
+              threshold=a.threshold, dims=a.max_dims)
+    ctx.check(b.threshold == t2 and np.array_equal(b.max_dims, d2), "CompressConfig.update|argument-changed")
+    other = CompressConfig(CompressCriteria.fixed, max_bonddim=5)
+    try:
+        a.update(other)
+        refused = False
+    except ValueError:
+        refused = True
+    ctx.check(refused, "CompressConfig.update|different-criteria-accepted")
+    c = CompressConfig(CompressCriteria.both, threshold=t1, max_bonddim=int(d1.max()))
+    c.max_dims = np.array(d1, dtype=int)
+    cp = ctx.lib(c.copy, what="CompressConfig.copy")
+    ctx.lib(c.relax, what="CompressConfig.relax")
+    ctx.count("oracle", 2)
+    ctx.check(abs(c.threshold - min(3 * t1, 0.9)) <= 1e-15 and np.array_equal(c.max_dims, np.maximum((d1 * 0.8).astype(np.int64), 2)),
+              "CompressConfig.relax|not-the-documented-loosening", threshold=c.threshold, dims=c.max_dims, before=d1)
+    ctx.check(cp.threshold == t1 and np.array_equal(cp.max_dims, d1), "CompressConfig.copy|shares-its-limits-with-the-original")
+    ctx.nontrivial(("config", n, round(t1, 9), d1.tolist()))
+
+
 def run_case(ctx):
+    if ctx.idx % 40 == 7:
+        return config_case(ctx)
     if ctx.idx % 5 == 4:
         try:
             from rv.props import c05_tree
